@@ -82,6 +82,12 @@ AlphaMerge == AlphaOf([Query |-> {"lp"}, P |-> {"o"}, A |-> {"o"}, B |-> {"o"}, 
 AlphaMerge2 == AlphaOf([Query |-> {"lo", "o"}, T |-> {"o", "s", "d"}])
 AlphaSchedMA == AlphaOf([Mutation |-> {"mg", "mgn", "m3", "m1"}, T |-> {"s"}])
 ArgOptsMA == [ f |-> {<<>>}, g |-> {<<ArgV("r", Lit("var", "y"))>>}, mg |-> {<<ArgV("r", Lit("var", "y"))>>, <<ArgV("r", Lit("int", 2))>>}, mgn |-> {<<ArgV("r", Lit("var", "y"))>>} ]
+\* the same field at several places with different arguments (argument dictionaries must not be shared)
+AlphaMutArgs == AlphaOf([Mutation |-> {"m1"}, T |-> {"f"}])
+AlphaSchedA == AlphaOf([Query |-> {"o"}, T |-> {"f"}])
+ArgOptsFew == [ f |-> {<<>>, <<ArgV("a", Lit("int", 1))>>, <<ArgV("b", Lit("str", "q"))>>}, g |-> {<<ArgV("r", Lit("int", 2))>>} ]
+\* variables reaching a directive only through two levels of fragment spreads
+AlphaFragVar == AlphaOf([Query |-> {"o"}, T |-> {"s"}])
 AllFieldNames == UNION {DOMAIN TypesExec[tn].fields : tn \in DOMAIN TypesExec}
 SomeFieldNames == {"o", "sn", "m2", "m3", "lnn"}
 AlphaMut == AlphaOf([Mutation |-> {"m1", "m3", "ml"}, T |-> {"s", "o"}])
